@@ -30,6 +30,7 @@ CONSTANTS Peers,       \* e.g. {"p1", "p2"}
           MaxOverlap,  \* connections per peer the manager admits at once (2 = in scope)
           MaxOpens, MaxInb, MaxFc, MaxExp,   \* bounds on open_substream / inbound / force_close / expiry
           Eager,       \* services that are polled as soon as their inbox is non-empty
+          EagerCmd,    \* connections read a queued command before anything else happens
           SplitClose,  \* explore the window between report_connection_closed and the task going away
           Clog,        \* emit the ordering probe variant of Close
           Bug          \* "none" or the name of a seeded defect (negative configurations)
@@ -281,6 +282,8 @@ Next ==
        THEN \E c \in DOMAIN cst : Drop(c)
      ELSE IF \E q \in Eager : chan[q] # <<>>
        THEN \E q \in Eager : Poll(q)
+     ELSE IF EagerCmd /\ \E c \in DOMAIN cst : cst[c] = "live" /\ cmdq[c] # <<>>
+       THEN \E c \in DOMAIN cst : cmdq[c] # <<>> /\ Cmd(c)
      ELSE Normal
 
 Spec == Init /\ [][Next]_vars
